@@ -158,6 +158,7 @@ package rhp
 //
 //@ extern (*rhp4.RPCReadSectorRequest).Validate
 //@   assigns nothing
+//@   ensures result == nil ==> req.Length > 0 && req.Offset <= 4194304 && req.Length <= 4194304 - req.Offset
 //@ extern (*rhp4.RPCWriteSectorRequest).Validate
 //@   assigns nothing
 //@ extern (*rhp4.RPCVerifySectorRequest).Validate
